@@ -319,6 +319,8 @@ func runC07(r *Run) {
 		want := map[string]string{
 			"PrevFinNextValSet": "p0.FinalizedValSet", "PrevValSet": "p0.CurValSet", "CurValSet": "p0.PrevFinNextValSet",
 			"PrevFinAppStateHash": "p0.FinalizedAppStateHash", "PrevBlockHash": "p0.FinalizedBlockHash",
+			// the finalized slot is emptied: "no finalization yet for the new height" is tested by its emptiness
+			"FinalizedValSet": "zero:tmconsensus.ValidatorSet", "FinalizedAppStateHash": `""`, "FinalizedBlockHash": `""`,
 		}
 		ok := true
 		for k, v := range want {
